@@ -203,6 +203,10 @@ type ctx struct {
 	nextID uint64
 	round  int
 	oldOps []pk.Signer // operator signers of earlier epochs
+	// the check's OWN bookkeeping of what decides "due" (never read back from the contract):
+	lastView   uint32 // view number seen last
+	viewHeight uint32 // block height of the call that made the view number advance last (initConfig: 0)
+	maxBCV     uint32 // MaxBlockChangeView in force: genesis value, then the value of each successful updateConfig
 }
 
 // operator recomputes the operator address independently of node_manager.GetCurConOperator: the multi-signature
@@ -298,6 +302,15 @@ func (c *ctx) try(class, name string, contract common.Address, method string, ar
 		if len(got) != len(sa) {
 			c.r.Violation("tx:signature-addresses-differ", fmt.Sprintf("%s: tx yields %d signature addresses, signers %d", name, len(got), len(sa)), nil)
 		}
+	}
+	if method == "updateConfig" && rec.Ok {
+		p := new(node_manager.UpdateConfigParam)
+		if err := p.Deserialization(common.NewZeroCopySource(args)); err == nil {
+			c.maxBCV = p.Configuration.MaxBlockChangeView
+		}
+	}
+	if method == "commitDpos" {
+		c.view()
 	}
 	witnessed := has(sa, required)
 	c.r.Eval(1)
@@ -433,12 +446,75 @@ func (c *ctx) spareKey() *pk.Key {
 	return k
 }
 
+// view returns the current view NUMBER as the contract reports it together with the height of the last view change
+// as the check itself recorded it (the height of the call after which the view number had advanced). The height
+// the contract stores is only compared and counted, never used to decide what is due.
 func (c *ctx) view() *node_manager.GovernanceView {
 	v, err := node_manager.GetGovernanceView(c.e.Service())
 	if err != nil {
 		panic(err)
 	}
-	return v
+	if v.View != c.lastView {
+		c.lastView = v.View
+		c.viewHeight = c.e.Height
+		c.r.Count("view_changes_recorded_by_the_check", 1)
+		if v.Height != c.e.Height {
+			c.r.Count("stored_view_height_differs_from_height_of_the_view_change", 1)
+		}
+	}
+	return &node_manager.GovernanceView{View: v.View, Height: c.viewHeight, TxHash: v.TxHash}
+}
+
+// commitBy makes a commitDpos that the setup needs and records the view change.
+func (c *ctx) commitBy(sg pk.Signer, what string) {
+	must(c.e.Call(utils.NodeManagerContractAddress, "commitDpos", nil, sg), what)
+	c.view()
+}
+
+// overdueWindow: the judged shape "a stranger is refused before the epoch is due, the operator changes the epoch at h1,
+// a stranger must still be refused at every height below h1+MaxBlockChangeView - also at heights that lie beyond
+// (height of the previous view change)+MaxBlockChangeView". Uses only initConfig, one operator commit and the check's own numbers.
+func (c *ctx) overdueWindow() {
+	r := c.r
+	stranger := combo{"unrelated-key", []pk.Signer{pk.Single(c.other)}}
+	nobody := combo{"nobody", nil}
+	for rep := 0; rep < 3; rep++ {
+		max := uint64(c.maxBCV)
+		gv := c.view()
+		prev := uint64(gv.Height)
+		if max > 1 {
+			c.commitAt("window/before-due", gv, max, 1+uint64(c.rng.Int63n(int64(max-1))), stranger)
+		}
+		// operator changes the epoch before it is due (or, with MaxBlockChangeView 1, one block after the last change)
+		d1 := uint64(1)
+		if max > 2 {
+			d1 = 1 + uint64(c.rng.Int63n(int64(max-1)))
+		}
+		c.e.Height = gv.Height + uint32(d1)
+		c.commitBy(c.opSigner(), "commitDpos(operator) at h1")
+		gv = c.view()
+		h1 := uint64(gv.Height)
+		if h1 != prev+d1 {
+			panic("bookkeeping: view height not advanced by the operator's commit")
+		}
+		// heights H with prev+max <= H < h1+max, i.e. delta (from h1) in [max-d1, max-1]
+		lo := int64(max) - int64(d1)
+		if lo < 0 {
+			lo = 0
+		}
+		for _, d := range []uint64{uint64(lo), max - 1, uint64(lo) + uint64(c.rng.Int63n(int64(max)-lo))} {
+			for _, cb := range []combo{stranger, nobody} {
+				rec := c.commitAt("window/after-operator-commit", gv, max, d, cb)
+				r.Count("not_due_commit_without_operator_beyond_previous_epoch_deadline", 1)
+				if rec.Ok {
+					gv = c.view()
+				}
+			}
+		}
+		// and from the first due height on anybody may
+		c.commitAt("window/due", gv, max, max, stranger)
+		c.view()
+	}
 }
 
 // ---------------------------------------------------------------------------------------------
@@ -617,12 +693,11 @@ func (c *ctx) commitCases(label string) {
 	r := c.r
 	for _, due := range []int{-1, 0, -1, 1} {
 		for _, cb := range c.operatorCombos() {
-			cfg, err := node_manager.GetConfig(c.e.Service())
-			if err != nil {
-				panic(err)
+			if cfg, err := node_manager.GetConfig(c.e.Service()); err == nil && cfg.MaxBlockChangeView != c.maxBCV {
+				r.Count("stored_MaxBlockChangeView_differs_from_last_accepted_updateConfig", 1)
 			}
 			gv := c.view()
-			mbcv := uint64(cfg.MaxBlockChangeView)
+			mbcv := uint64(c.maxBCV)
 			room := maxU32 - uint64(gv.Height) // heights are uint32
 			var delta uint64
 			switch due {
@@ -695,11 +770,12 @@ func (c *ctx) commitBoundaries() {
 		s := common.NewZeroCopySink(nil)
 		(&node_manager.UpdateConfigParam{Configuration: cfg}).Serialization(s)
 		must(c.e.Call(utils.NodeManagerContractAddress, "updateConfig", s.Bytes(), c.opSigner()), "updateConfig(boundary)")
+		c.maxBCV = v
 	}
 	// a regular epoch change by the operator at a moderate height first (view height > 0)
 	gv := c.view()
 	c.e.Height = gv.Height + 100 + uint32(c.rng.Intn(100))
-	must(c.e.Call(utils.NodeManagerContractAddress, "commitDpos", nil, c.opSigner()), "commitDpos(operator)")
+	c.commitBy(c.opSigner(), "commitDpos(operator)")
 	gv = c.view()
 	vh := uint64(gv.Height)
 	values := []uint64{maxU32, maxU32 - 1, maxU32 - vh + uint64(c.rng.Intn(3)), maxU32 - vh + 1, maxU32 - vh, maxU32 - vh - 1, 1 << 31, (1 << 31) + vh, 10000}
@@ -745,7 +821,7 @@ func (c *ctx) commitBoundaries() {
 	setMax(10000 + uint32(c.rng.Intn(50)))
 	if uint64(c.view().Height) < maxU32-10 {
 		c.e.Height = c.view().Height + 1
-		must(c.e.Call(utils.NodeManagerContractAddress, "commitDpos", nil, c.opSigner()), "commitDpos(operator)")
+		c.commitBy(c.opSigner(), "commitDpos(operator)")
 	}
 }
 
@@ -1141,6 +1217,7 @@ func TestC18(t *testing.T) {
 		}
 		c.e.Height = 1
 		c.e.Validators = c.cons
+		c.lastView, c.viewHeight, c.maxBCV = 1, 0, genesisMax
 		r.Count(fmt.Sprintf("rounds_with_genesis_MaxBlockChangeView=%d", genesisMax), 1)
 		func() {
 			vBefore := r.Violations()
@@ -1153,6 +1230,7 @@ func TestC18(t *testing.T) {
 					r.Inconclusive(fmt.Sprintf("round %d: %v", round, p))
 				}
 			}()
+			c.overdueWindow()
 			c.operatorMethods("genesis-epoch")
 			c.ownerMethods()
 			c.contextCases(r.N(25, 40))
@@ -1165,7 +1243,7 @@ func TestC18(t *testing.T) {
 			for _, cb := range sets { // not due, and these signers are not the operator
 				c.try("operator", "commitDpos/not-due", utils.NodeManagerContractAddress, "commitDpos", nil, c.operator(), cb, false)
 			}
-			must(c.e.Call(utils.NodeManagerContractAddress, "commitDpos", nil, old), "commitDpos witnessed by the multi-signature of the consensus validators (the operator)")
+			c.commitBy(old, "commitDpos witnessed by the multi-signature of the consensus validators (the operator)")
 			r.Count("accepted_from_consensus_only_operator_while_non_consensus_members_in_pool", 1)
 			c.cons = append(c.cons, c.cands...)
 			c.cands = nil
@@ -1195,6 +1273,8 @@ func TestC18(t *testing.T) {
 	r.Require("rejected_without_witness:owner", rounds*60)
 	r.Require("rejected_without_witness:approver", rounds*60)
 	r.Require("due_commit_without_operator_ok", rounds*4)
+	r.Require("not_due_commit_without_operator_beyond_previous_epoch_deadline", rounds*12)
+	r.Require("view_changes_recorded_by_the_check", rounds*10)
 	r.Require("boundary_configs_installed", rounds*2*8)
 	r.Require("not_due_commit_without_operator:boundary", rounds*2*60)
 	r.Require("not_due_commit_without_operator_where_viewheight+max_exceeds_uint32", rounds*2*30)
@@ -1218,6 +1298,8 @@ func TestC18(t *testing.T) {
 	r.Assume("operator address = multi-signature address of the current consensus validators' keys with m = n-(n-1)/3, recomputed by the check from its own bookkeeping of the validator set (and cross-checked with types.AddressFromBookkeepers)")
 	r.Assume("members of the pool that never were consensus validators of the current epoch (approved candidates, also after asking to quit or being blacklisted) are not part of the operator; " +
 		"a consensus validator that asked to quit (still in office, but no longer counted by poly) is not used to build a must-fail case")
+	r.Assume("the height of the last epoch change and MaxBlockChangeView are the check's own bookkeeping (height of the call after which the view number advanced; genesis value / last accepted updateConfig), " +
+		"the values the contract stores are only compared and counted")
 	r.Assume("commitDpos without the operator is allowed exactly when height - height_of_last_view_change >= MaxBlockChangeView (read with node_manager.GetConfig)")
 	r.Assume("a caller that swallows the error of a failed nested call (impossible for transactions on this tree: nothing calls NativeCall) is recorded as latent, not judged")
 	r.Assume("not covered: RegisterAsset / UpdateFee / AddSignature / vote import (listed in DESIGN, outside this task's method list)")
